@@ -20,6 +20,13 @@ def gen_streams(wd, tier, seed, name="gen"):
     return out
 
 
+def gen_hex(wd, gen):
+    """packs generated behaviours into hex lines (for drivers that take raw streams)"""
+    out = gen + ".hex"
+    vh(["deflate-pack", "--in", gen, "--out", out])
+    return out
+
+
 def replay_generated(c, wd, gen, threads=12):
     res = gen + ".res"
     vh(["deflate-replay", "--in", gen, "--out", res, "--threads", threads], ok_codes=(0, 3))
@@ -32,7 +39,7 @@ def record_driver(wd, tier, seed, traces, streams=None, mutants=None, maxlen=Non
     q = tier == "quick"
     args = ["deflate-record", "--seed", seed, "--streams", streams or (120 if q else 1500),
             "--maxlen", maxlen or (60000 if q else 300000), "--mutants", mutants if mutants is not None else 3,
-            "--samples", 1, "--out", res, "--threads", 14]
+            "--samples", 1, "--out", res, "--threads", 14, "--sweeps", 8 if q else 64, "--window", 48 if q else 160]
     if traces:
         args += ["--trace", tr, "--traces", traces, "--tracemax", tracemax or (20000 if q else 120000)]
     vh(args, ok_codes=(0, 3))
